@@ -1201,7 +1201,7 @@ BADLINES = [("[S", "ECONF_MISSING_BRACKET"), ("[S] x", "ECONF_TEXT_AFTER_SECTION
 
 def c13_tree_cases(exe, tier, seed, verdict):
     rnd = random.Random(seed)
-    r, recs, total = tree_export(3, [3, 6], 12, ["bb"])
+    r, recs, total = tree_export(3, [3, 6, 10], 12, ["bb"])      # (name 10, +z.conf: listed in front of the entries . and ..)
     recs = [x for x in recs if len(x["log"]) >= 1]
     rnd.shuffle(recs)
     budget = 400 if tier == "quick" else 5000
@@ -1261,7 +1261,7 @@ def c13_tree_cases(exe, tier, seed, verdict):
         if len(samples) < 2:
             samples.append({"tree": tree_text(t), "malformed_file": list(f), "expect": want})
     # the same through the history entry points (2 layers): right code, right location, and NO list handed back (pointer NULL)
-    r2_, recs2_, _ = tree_export(2, [3, 6], 12, ["bb"])
+    r2_, recs2_, _ = tree_export(2, [3, 6, 10], 12, ["bb"])
     recs2_ = [x for x in recs2_ if len(x["log"]) >= 1]
     rnd.shuffle(recs2_)
     hcases, hmetas = [], []
